@@ -449,6 +449,8 @@ class ExprMixin:
             self.unsupported(e, 'non-empty dict literal')
         ty = self.hint_type(e)
         if ty is None:
+            ty, self._literal_hint = getattr(self, '_literal_hint', None), None
+        if ty is None:
             self.unsupported(e, 'dict literal without declared type (add `hints`)')
         return [(st, self.new_dict(st, ty[1], ty[2], ty[3] if len(ty) > 3 else None))]
 
@@ -729,7 +731,10 @@ class ExprMixin:
         if isinstance(op, ast.Add):
             return [(st, VInt(z3.simplify(x + y)))]
         if isinstance(op, ast.Sub):
-            return [(st, VInt(z3.simplify(x - y)))]
+            r = VInt(z3.simplify(x - y))
+            if getattr(a, 'single_bit', None) is not None and is_const_int(y) and y.as_long() == 1:
+                r.low_mask = a.single_bit        # (1 << k) - 1: remembered for use as a mask of the k low bits
+            return [(st, r)]
         if isinstance(op, ast.Mult):
             return [(st, VInt(z3.simplify(x * y)))]
         if isinstance(op, (ast.FloorDiv, ast.Mod)):
@@ -767,12 +772,15 @@ class ExprMixin:
             return [(st, VInt(self.bitor(st, x, y, node)))]
         if isinstance(op, ast.Pow):
             if is_const_int(x) and x.as_long() == 2:
-                ok, ex = self.guard(st, y >= 0, 'builtins:ValueError')  # negative exponent would give a float
+                # spec functions are total over the integers they are applied to (as before: no fork inside a specification)
+                nonneg, neg = (st, None) if self.spec_mode else self.branch(st, y >= 0)
                 res = []
-                if ok is not None:
-                    res.append((ok, VInt(z3.IntVal(2 ** y.as_long()) if is_const_int(y) else self.pow2(ok, y))))
-                if ex is not None:
-                    self.unsupported(node, '2**e with possibly negative e')
+                if nonneg is not None:
+                    res.append((nonneg, VInt(z3.IntVal(2 ** y.as_long()) if is_const_int(y) else self.pow2(nonneg, y))))
+                if neg is not None:
+                    # a negative exponent gives the float 1 / 2**(-e) (exact in binary floating point down to 2**-1074; A-REAL)
+                    d = z3.IntVal(2 ** (-y.as_long())) if is_const_int(y) else self.pow2(neg, -y)
+                    res.append((neg, VReal(1 / z3.ToReal(d))))
                 return res
             if is_const_int(x) and is_const_int(y) and y.as_long() >= 0:
                 return [(st, VInt(x.as_long() ** y.as_long()))]
@@ -829,6 +837,12 @@ class ExprMixin:
                 x = self.as_int(u, node)
                 p = self.pow2(st, k) if not is_const_int(k) else z3.IntVal(2 ** k.as_long())
                 return z3.simplify(((x / p) % 2) * p)
+            k = getattr(v, 'low_mask', None)
+            if k is not None:
+                # x & ((1 << k) - 1): the k low bits of a non-negative x (of any x in two's complement: Python's % is floor-mod)
+                x = self.as_int(u, node)
+                p = self.pow2(st, k) if not is_const_int(k) else z3.IntVal(2 ** k.as_long())
+                return z3.simplify(x % p)
         return self.bitand(st, self.as_int(a, node), self.as_int(b, node), node)
 
     def bitand(self, st, x, y, node):
